@@ -257,12 +257,12 @@ PROPS['C14'] = {
 
 PROPS['C08'] = {
     'title': 'A snapshot taken under concurrent commits restores to a consistent cut',
-    'modules': ['ColumnVerif.Props.C08', 'ColumnVerif.Props.C08skel'],
+    'modules': ['ColumnVerif.Props.C08', 'ColumnVerif.Props.C08store', 'ColumnVerif.Props.C08skel'],
     'runs': [{'mode': 'sched'}],
     'skeleton': True,
     'trusted_base': CONC_TB,
     'assumptions': [
-        "a chunk's content is abstracted to the list of commit ids applied to it; that a commit's emitted section is absolute (replaying it is state-independent) is C06's theorem",
+        "machine level: a chunk's content is abstracted to the list of commit ids applied to it; store level (Props/C08store, sequential core): restore_eq_readState_replay (Restore = readState, then the logged entries whose id is newer than the id stored with their chunk, in order), restore_tail_converges (state of p0 + everything committed afterwards with the recorder open restores to the primary after those commits: every numeric read and every fill bit, at every offset), restore_skips_older / restore_overlap_converges (commits recorded AND already contained in the chunk states — recorder opened before the chunks were read — are skipped by id and the result is still the primary): the id filter is what makes the replay idempotent; hypotheses SourceOK/TargetOK (covered, canonical, nothing present beyond the committed chunks) are kept by commits (sourceOK_commits)",
         "partial on in-flight reservations: an insert reserved but not yet committed shows up as an empty row in the chunk's insert markers (finding D17)",
         "the chunk read happens under the chunk's read latch and the collection lock, the recorder pointer is looked at inside the latch section, Append/Copy share the log mutex, Restore filters by id: flag theorems over the regenerated skeleton",
     ],
@@ -288,7 +288,7 @@ PROPS['C17'] = {
 
 PROPS['C07'] = {
     'title': 'Restore of a snapshot reproduces the collection exactly',
-    'modules': ['ColumnVerif.Props.C07', 'ColumnVerif.Props.C07more', 'ColumnVerif.Props.C07wire', 'ColumnVerif.Props.C07skel'],
+    'modules': ['ColumnVerif.Props.C07', 'ColumnVerif.Props.C07more', 'ColumnVerif.Props.C07wire', 'ColumnVerif.Props.C08store', 'ColumnVerif.Props.C07skel'],
     'runs': [{'mode': 'store'}],
     'skeleton': True,
     'trusted_base': STORE_TB + [SKEL_TB],
